@@ -21,7 +21,7 @@ NewClient(lg, v111, http) ==
      pend |-> <<>>, nsub |-> <<>>, per |-> <<>>, grant |-> <<>>,
      tok |-> "nil", tokq |-> <<>>, dispW |-> <<>>, unsent |-> {},
      recheck |-> <<>>, owed |-> <<>>, stale |-> {}, intok |-> 0, trigc |-> <<>>,
-     gotByGet |-> <<>>, taintG |-> FALSE, taintU |-> FALSE, taintW |-> FALSE, dropped |-> <<>>, hUnsub |-> {}, strayGot |-> <<>>, unsendPend |-> {},
+     gotByGet |-> <<>>, gotKept |-> <<>>, taintG |-> FALSE, taintU |-> FALSE, taintW |-> FALSE, dropped |-> <<>>, hUnsub |-> {}, strayGot |-> <<>>, unsendPend |-> {},
      lastTokT |-> 0, lastAcc |-> <<>>, tid |-> "", dispCalled |-> {}]
 
 InitO(tr) ==
@@ -75,10 +75,11 @@ Dangling(res2, direct2) == {r \in Held(direct2, res2) : r \notin DOMAIN res2}
 
 (* Finding KF-G: a get response delivered these resources while the request   *)
 (* now answered was outstanding, and the gateway considers them sent.          *)
-(* gotByGet[x] = line of the get response that delivered x - recorded only when another request of the client for the *)
-(* got resource (or a call / auth / new, whose result resource is unknown) was outstanding then: its in-flight direct   *)
-(* count is what keeps the got resources in state sent (without one the collector marks them unsent again)             *)
-ByGet(cl, d, reqL) == \A x \in d : Get(cl.gotByGet, x, 0) > reqL
+(* gotByGet[x] = line of the get response that last delivered x (events queued during the get are flushed right after *)
+(* it); gotKept[x] = the same, recorded only when another subscribe / get of the client from which x is reachable (or *)
+(* a call / auth / new, whose result resource is unknown) was outstanding then: its in-flight direct count is what     *)
+(* keeps x in state sent (without one the collector marks the got resources unsent again)                              *)
+ByGet(cl, d, reqL) == \A x \in d : Get(cl.gotKept, x, 0) > reqL
 
 (* (a drop is recorded only while a request that keeps the resource sent is outstanding - PendOn - and forgotten *)
 (* when the client holds the resource again; the request now answered may have been sent after the drop)          *)
@@ -200,7 +201,8 @@ H_cres(r) ==
     LET req == cl0.pend[r.id]
         isGet == cl0.pend[r.id].m = "get"
         cl1 == [cl0 EXCEPT !.pend = Del(cl0.pend, r.id), !.rn = r.rn @@ cl0.rn, !.taintU = @ \/ StaleResend(cl0, r.set),
-                           !.gotByGet = IF isGet THEN @ ELSE [x \in DOMAIN @ \ DOMAIN SetRes(r.set) |-> @[x]]]
+                           !.gotByGet = [x \in DOMAIN cl0.gotKept \ (IF isGet THEN {} ELSE DOMAIN SetRes(r.set)) |-> @[x]],
+                           !.gotKept = IF isGet THEN @ ELSE [x \in DOMAIN @ \ DOMAIN SetRes(r.set) |-> @[x]]]
         shapeV == IF r.shape THEN {} ELSE {V("C07", "error response without string code/message", "")}
         res1 == SetRes(r.set) @@ cl1.res
         nsubOf(rid) == Get(cl1.nsub, rid, 0)
@@ -217,8 +219,11 @@ H_cres(r) ==
             LET getH == Closure({req.rid}, res1)
                 miss == {x \in getH : x \notin DOMAIN res1}
                 kfm == KfOf(cl1, miss, req.l)
-                keeps == \E i \in DOMAIN cl1.pend : (cl1.pend[i].m \in {"subscribe", "get"} /\ cl1.pend[i].rid = req.rid) \/ cl1.pend[i].m \in {"call", "auth", "new"}
-                cl2 == [Collect(cl1, res1, cl1.direct) EXCEPT !.gotByGet = IF keeps THEN [x \in DOMAIN SetRes(r.set) |-> l] @@ @ ELSE @,
+                anyRes == \E i \in DOMAIN cl1.pend : cl1.pend[i].m \in {"call", "auth", "new"}
+                pendH == Closure({cl1.pend[i].rid : i \in {j \in DOMAIN cl1.pend : cl1.pend[j].m \in {"subscribe", "get"}}}, res1)
+                kept == {x \in DOMAIN SetRes(r.set) : anyRes \/ x \in pendH}
+                cl2 == [Collect(cl1, res1, cl1.direct) EXCEPT !.gotByGet = [x \in DOMAIN SetRes(r.set) |-> l] @@ @,
+                                                              !.gotKept = [x \in kept |-> l] @@ @,
                                                               !.taintG = @ \/ (miss # {} /\ kfm = "KF-G"),
                                                               !.taintW = @ \/ (miss # {} /\ kfm = "KF-W")]
             IN Res(SetConn(o, r.c, cl2),
@@ -300,7 +305,8 @@ RecheckViol(cl, r) ==
 
 H_cev(r) ==
     LET cl0 == o.conns[r.c]
-        cl1 == [cl0 EXCEPT !.rn = r.rn @@ cl0.rn, !.gotByGet = [x \in DOMAIN @ \ DOMAIN SetRes(r.set) |-> @[x]], !.taintU = @ \/ StaleResend(cl0, r.set)]
+        cl1 == [cl0 EXCEPT !.rn = r.rn @@ cl0.rn, !.gotByGet = [x \in DOMAIN @ \ DOMAIN SetRes(r.set) |-> @[x]],
+                           !.gotKept = [x \in DOMAIN @ \ DOMAIN SetRes(r.set) |-> @[x]], !.taintU = @ \/ StaleResend(cl0, r.set)]
         leakV == IF r.leak = <<>> THEN {} ELSE {V("C10", "connection id in event frame", "")}
         H == Held(cl1.direct, cl1.res)
         \* KF-U also: Unsend leaves the subscription un-queued, so events keep flowing for a resource the gateway itself
@@ -325,7 +331,10 @@ H_cev(r) ==
                           THEN {V("C13", "event seq " \o ToString(r.seq) \o " on " \o r.rid \o " delivered while query requests of an earlier query event are unanswered", "")}
                           ELSE {}
         seqV == SeqViol(cl1, r) \cup RecheckViol(cl1, r) \cup qlockV
-        cl1s == [SeqUpdate(cl1, r) EXCEPT !.strayGot = sg1]
+        \* the events queued during a get are flushed straight after its response: once another frame arrives, only the
+        \* got resources that an in-flight request keeps sent remain attributable
+        cl1s == [SeqUpdate(cl1, r) EXCEPT !.strayGot = sg1,
+                                          !.gotByGet = IF strayV = {} THEN [x \in DOMAIN @ \cap DOMAIN cl1.gotKept |-> @[x]] ELSE @]
     IN
     CASE r.ev = "change" ->
             IF cur.k # "m"
